@@ -13,7 +13,8 @@ class RLVCommand(NamedTuple):
 class RLVParser:
     @staticmethod
     def is_rlv_message(msg: Message) -> bool:
-        chat: str = msg["ChatData"]["Message"]
+        # May be stringy bytes rather than a `str` if the sender left off the NUL terminator
+        chat: str = str(msg["ChatData"]["Message"])
         chat_type: int = msg["ChatData"]["ChatType"]
         return chat and chat.startswith("@") and chat_type == ChatType.OWNER
 
